@@ -64,16 +64,21 @@ pub fn fan(k: usize) -> (MP, MP) {
     let p = ((o.0 + l * dir.0).round(), (o.1 + l * dir.1).round());
     let s = if k % 2 == 0 { 1.2 } else { 0.8 };
     let mut r = ((o.0 + s * l * dir.0).round(), (o.1 + s * l * dir.1).round());
-    // move R to the right of the line O->P by the smallest integer step that makes the orientation strictly negative
-    let perp = if dir.0.abs() > dir.1.abs() { (0.0, -1.0) } else { (1.0, 0.0) };
-    let mut guard = 0;
-    while orient(o, p, r) >= 0.0 && guard < 64 {
-        r = (r.0 + perp.0, r.1 + perp.1);
-        guard += 1;
+    // R: among the integer points within 3 steps of the exact point on the ray, the one strictly to the right of
+    // the line O->P that is closest to it (odd fans) or the k%3-th closest (diversity)
+    let r0 = r;
+    let mut cands: Vec<(f64, P)> = vec![];
+    for dx in -3..=3 {
+        for dy in -3..=3 {
+            let q = (r0.0 + dx as f64, r0.1 + dy as f64);
+            let c = orient(o, p, q);
+            if c < 0.0 {
+                cands.push((-c, q));
+            }
+        }
     }
-    for _ in 0..(k % 3) {
-        r = (r.0 + perp.0, r.1 + perp.1);
-    }
+    cands.sort_by(|x, y| x.partial_cmp(y).unwrap());
+    r = cands[(k % 3).min(cands.len() - 1)].1;
     let t = ((o.0 + 0.9 * l * (theta + 0.7).cos()).round(), (o.1 + 0.9 * l * (theta + 0.7).sin()).round());
     let b = ((o.0 + 1.1 * l * (theta - 0.7).cos()).round(), (o.1 + 1.1 * l * (theta - 0.7).sin()).round());
     let a = geo_types::MultiPolygon(vec![poly_from(&[o, p, t], &[])]);
